@@ -9,14 +9,18 @@
 (* the dask schedulers are third-party code outside the model.             *)
 (***************************************************************************)
 EXTENDS Naturals, FiniteSets, TLC
-CONSTANTS Fams, Chunkings, Schedulers, Computes, CheckNans
+CONSTANTS Fams, Chunkings, Schedulers, Computes, CheckNans,
+          WeightKinds   \* user weights: "none", "numpy" (in memory) or "dask" (derived lazily from the dask-backed data)
 VARIABLES cfg, pred, phase
 vars == <<cfg, pred, phase>>
 
+SingleFams == {"EOF", "EOFstd", "EOFRotator1", "EOFRotator2", "ExtendedEOF", "SparsePCA", "HilbertEOF"}
 ChunkAll == {"single", "samples", "features", "both", "elementwise"}
 Init == /\ phase = "cfg" /\ pred = [maxComputesInFit |-> 0]
-        /\ \E f \in Fams, c \in Chunkings, s \in Schedulers, cp \in Computes, cn \in CheckNans :
-             cfg = [fam |-> f, chunks |-> c, sched |-> s, compute |-> cp, checkNans |-> cn]
+        /\ \E f \in Fams, c \in Chunkings, s \in Schedulers, cp \in Computes, cn \in CheckNans, w \in WeightKinds :
+             /\ cfg = [fam |-> f, chunks |-> c, sched |-> s, compute |-> cp, checkNans |-> cn, weights |-> w]
+             \* weights are an argument of the single-set fit; nothing in what is demanded depends on them
+             /\ (w # "none") => f \in SingleFams
 Do == /\ phase = "cfg" /\ phase' = "done" /\ UNCHANGED cfg
       /\ pred' = [fitMayCompute     |-> cfg.compute \/ cfg.checkNans,
                   resultsLazyAfterFit |-> ~cfg.compute,
